@@ -240,7 +240,7 @@ pub fn bfs<S: Sys>(sys: &S, opts: &BfsOpts) -> BfsResult {
 pub fn into_totals(r: &BfsResult, t: &mut Totals) {
     t.evals += r.transitions;
     t.transitions += r.transitions;
-    t.traces += r.states as u64;
+    t.traces += r.transitions;
     t.nontrivial += r.states as u64;
     t.bfs_states += r.states as u64;
     for s in &r.samples {
